@@ -144,6 +144,11 @@ fn authenticated(bytes: &[u8], typ: u16, key: &stun_rs::HMACKey) -> (bool, &'sta
     };
     let is = |a: &StunAttribute| a.attribute_type().as_u16() == typ;
     let mut outcome = "decode-error";
+    // a panic on damaged input is not an acceptance (it is a C03 violation, reported by that check)
+    let lib_decode = |b: &[u8], o: &DecOpts| match guard(|| crate::codec::lib_decode(b, o)) {
+        Guard::Ok(r) => r,
+        _ => Err("panic".to_string()),
+    };
     if let Ok((m, _)) = lib_decode(bytes, &opts) {
         if m.attributes().iter().any(is) {
             return (true, "validated-decode-accepts");
@@ -296,7 +301,11 @@ pub fn check_mi(c: &MiCase, st: &mut Stats) -> Result<(), String> {
             let mut mutated = bytes.clone();
             mutated[bp / 8] ^= 0x80 >> (bp % 8);
             st.evaluations += 1;
-            let (ok, how) = authenticated(&mutated, *typ, &lkey);
+            let (ok, how) = match guard(|| authenticated(&mutated, *typ, &lkey)) {
+                Guard::Ok(r) => r,
+                Guard::LibPanic(_) => (false, "panic-on-damaged-input"),
+                Guard::HarnessPanic(m) => return Err(format!("HARNESS-{}", m)),
+            };
             if ok {
                 return Err(format!(
                     "bit {} of byte {} ({}) flipped and the message is still accepted as authenticated by {:#06x}: {}",
